@@ -8,5 +8,5 @@ class ParentRealpathFs:
         self.fs = fs
 
     def parent_realpath(self, path):
-        parent = os.path.dirname(path)
+        parent = os.path.dirname(path.rstrip(os.path.sep) or path)
         return self.fs.realpath(parent)
